@@ -39,6 +39,31 @@ Proof.
 Qed.
 Print Assumptions C20_order.
 
+(* "Strictly greater" is semver.org 2.0.0 precedence ([spec_compare]: numeric identifiers
+   compared as unbounded numbers) whenever the numeric pre-release identifiers fit in uint64
+   ([small]).  Full statement (false of the library, see C20_compare_refuted_huge):
+     forall a b, wf a = true -> wf b = true -> compare a b = spec_compare a b. *)
+Theorem C20_compare_is_semver_precedence : forall a b,
+  wf a = true -> wf b = true -> small a = true -> small b = true -> compare a b = spec_compare a b.
+Proof. exact compare_is_spec. Qed.
+Print Assumptions C20_compare_is_semver_precedence.
+
+(* known finding C20-uint64-prerelease-identifier: a numeric identifier of 2^64 or more is
+   compared bytewise by the library, so 3.1.0-99999999999999999999 counts as newer than
+   3.1.0-100000000000000000000 *)
+Theorem C20_compare_refuted_huge : exists a b,
+  parse (B "v3.1.0-99999999999999999999") = Some a /\ parse (B "v3.1.0-100000000000000000000") = Some b /\
+  wf a = true /\ wf b = true /\ compare a b = Gt /\ spec_compare a b = Lt.
+Proof. eexists. eexists. vm_compute. repeat split; reflexivity. Qed.
+Print Assumptions C20_compare_refuted_huge.
+
+(* the guard [small] holds of ordinary versions, up to the last uint64 *)
+Example C20_small_example :
+  map (fun s => option_map small (parse s))
+      [B "v3.1.0-rc.1"; B "1.0.0-alpha.beta.11+b5"; B "v2.0.0-18446744073709551615"; B "v2.0.0-18446744073709551616"]
+  = [Some true; Some true; Some true; Some false].
+Proof. vm_compute. reflexivity. Qed.
+
 (* Dry-run (the default) never changes any ref - whatever the tags, version, work tree. *)
 Theorem C20_dry_run_frame : forall i, i_dry i = true -> o_refs (decide i) = i_refs i.
 Proof. exact dry_run_frame. Qed.
